@@ -15,6 +15,8 @@ package main
 import (
 	"bytes"
 	"context"
+	"encoding/json"
+	"encoding/xml"
 	"errors"
 	"fmt"
 	"io"
@@ -77,7 +79,7 @@ type shape struct {
 	RForm      []kvs       `json:"rform"`
 	CQuery     []kvs       `json:"cquery"`
 	RQuery     []kvs       `json:"rquery"`
-	BodyKind   string      `json:"bodykind"` // none | bytes | string | func | reader | readcloser | multipart
+	BodyKind   string      `json:"bodykind"` // none | bytes | string | func | marshal | reader | readcloser | multipart
 	Body       string      `json:"body"`
 	DenyGetPay bool        `json:"denygetpayload"`
 	MPFiles    []mpFile    `json:"mpfiles,omitempty"`
@@ -402,6 +404,8 @@ func execute(p *program) (o observation) {
 		r.SetBodyBytes([]byte(sh.Body))
 	case "string":
 		r.SetBody(sh.Body)
+	case "marshal": // a struct: marshalled by the request middleware on every attempt
+		r.SetBody(marshalDoc{A: 7, B: sh.Body})
 	case "func":
 		b := sh.Body
 		r.SetBody(func() (io.ReadCloser, error) { return io.NopCloser(strings.NewReader(b)), nil })
@@ -874,6 +878,12 @@ func (p *program) expectedBody() (string, bool) {
 	switch sh.BodyKind {
 	case "none":
 		return "", true
+	case "marshal":
+		js, xm := marshalRenderings(sh.Body)
+		if strings.Contains(sh.effectiveContentType(), "xml") {
+			return xm, true
+		}
+		return js, true
 	}
 	return sh.Body, true
 }
@@ -923,4 +933,30 @@ func (sh *shape) expectedPath() string {
 		}
 	}
 	return t
+}
+
+// marshalDoc: the value handed to SetBody for "marshal" bodies.
+type marshalDoc struct {
+	XMLName xml.Name `json:"-" xml:"doc"`
+	A       int      `json:"a" xml:"a"`
+	B       string   `json:"b" xml:"b"`
+}
+
+func marshalRenderings(b string) (js, xm string) {
+	v := marshalDoc{A: 7, B: b}
+	j, _ := json.Marshal(v)
+	x, _ := xml.Marshal(v)
+	return string(j), string(x)
+}
+
+// effectiveContentType: the request-level Content-Type, else the client-level one.
+func (sh *shape) effectiveContentType() string {
+	for _, l := range [][]kvs{sh.RHeaders, sh.CHeaders} {
+		for _, e := range l {
+			if e.K == "Content-Type" && len(e.Vs) > 0 {
+				return e.Vs[0]
+			}
+		}
+	}
+	return ""
 }
